@@ -474,6 +474,37 @@ class Interp:
             self._log("unordered-to-unclassified-native", _qn(fn))
         return args
 
+    def exec_region(self, fn, start_marker, end_marker, variables):
+        """Interpret the top-level statements of repository function *fn*
+        that lie between two marker comments of its source (a mechanically
+        extracted region, re-read on every run), starting from *variables*.
+        Returns the environment's variables afterwards."""
+        node = SOURCES.lookup(fn)
+        src_lines = inspect.getsource(inspect.getmodule(fn)).splitlines()
+        lo = hi = None
+        for ln in range(node.lineno, node.end_lineno + 1):
+            text = src_lines[ln - 1]
+            if lo is None and start_marker in text:
+                lo = ln
+            elif lo is not None and end_marker in text:
+                hi = ln
+                break
+        if lo is None or hi is None:
+            raise EngineFault(f"region markers not found in {_qn(fn)}")
+        stmts = [st for st in node.body if lo < st.lineno and
+                 st.end_lineno < hi]
+        if not stmts:
+            raise EngineFault(f"empty region in {_qn(fn)}")
+        self._log("interp-region", f"{_qn(fn)}[{lo}:{hi}]")
+        (locs, nonloc, glob) = _scope_of(node)
+        env = Env(None, fn.__globals__, frozenset(), nonloc, glob)
+        env.fn_name = fn.__qualname__
+        env.vars.update(variables)
+        r = self.exec_block(stmts, env)
+        if r[0] == _RETURN:
+            raise EngineFault("extracted region returns")
+        return env.vars
+
     def call_repo_function(self, fn, args, kwargs):
         node = SOURCES.lookup(fn)
         self._log("interp", _qn(fn))
